@@ -74,9 +74,10 @@ SIG = {
                      'facts': ['result == ite(n <= 0, b"", sp108_stream(fid, kin, label, context, lbits, n - 1) + sp108_K(fid, kin, label, context, lbits, n))']},
     'sp108_K': 'bytes',
     # ---- RFC 7914 ---------------------------------------------------------------------------------------------------
-    # B'_0 || ... || B'_{n-1},  B'_i = scryptROMix(r, B_i, N),  B_i = b[blen*i : blen*(i+1)]
+    # B'_0 || ... || B'_{n-1},  B'_i = scryptROMix(r, B_i, N),  B_i = b[blen*i : blen*(i+1)].   `end` is blen*n, carried as its own
+    # argument so that the block boundaries stay linear terms (end - blen, end) in every unfolding
     'scrypt_mix': {'sort': 'bytes', 'uf': True,
-                   'facts': ['result == ite(n <= 0, b"", scrypt_mix(b, blen, N, n - 1) + romix(N, b[blen * (n - 1):blen * n]))']},
+                   'facts': ['result == ite(n <= 0, b"", scrypt_mix(b, blen, N, n - 1, end - blen) + romix(N, b[end - blen:end]))']},
     'is_pow2_below_2_32': 'bool', 'scrypt_params_ok': 'bool', 'scrypt': 'bytes',
     'bcrypt_key': 'bytes', 'bcrypt_raw': 'bytes', 'bcrypt_string': 'bytes', 'bcrypt': 'bytes', 'bcrypt_domain_ok': 'bool',
 }
@@ -222,7 +223,7 @@ def scrypt_params_ok(N, r, p):
     return conj(is_pow2_below_2_32(N), p <= ((2 ** 32 - 1) * 32) // (128 * r))
 
 
-def scrypt_mix(b, blen, N, n):
+def scrypt_mix(b, blen, N, n, end):
     pass
 
 
@@ -230,7 +231,7 @@ def scrypt(password, salt, N, r, p, dklen):
     """section 6:  B[0] || ... || B[p-1] = PBKDF2-HMAC-SHA256 (P, S, 1, p * 128 * r);  B[i] = scryptROMix (r, B[i], N);
     DK = PBKDF2-HMAC-SHA256 (P, B[0] || ... || B[p-1], 1, dkLen)"""
     b = pbkdf2(0, 256, 32, password, salt, 1, p * 128 * r)
-    return pbkdf2(0, 256, 32, password, scrypt_mix(b, 128 * r, N, p), 1, dklen)
+    return pbkdf2(0, 256, 32, password, scrypt_mix(b, 128 * r, N, p, p * (128 * r)), 1, dklen)
 
 
 # ====================================================================== bcrypt (Provos, Mazieres: "A Future-Adaptable Password Scheme", OpenBSD $2a$)
